@@ -303,9 +303,79 @@ def run_case(ctx, rng, job):
         ctx.count('noLongerProvides')
         if not (len(got) == len(exp) and all(x is y for x, y in zip(got, exp))):
             ctx.violation('noLongerProvides-keeps-subinterfaces', {'had': nm(cur), 'removed': nm(j), 'got': nm(got), 'expected': nm(exp)})
+    # interfaces handed over through transparent proxies (objects that forward everything and say they are of the
+    # wrapped interface's class, as security and location proxies do): one interface each, wherever an interface goes
+    if len(ifs) >= 3:
+        pa, pb, pc = rng.sample(ifs, 3)
+        forms = [('Declaration(a, (proxy(b),))', lambda: Declaration(pa, (Proxy(pb),)), [pa, pb]),
+                 ('Declaration(proxy(a), b)', lambda: Declaration(Proxy(pa), pb), [pa, pb]),
+                 ('Declaration([proxy(a)], proxy(c))', lambda: Declaration([Proxy(pa)], Proxy(pc)), [pa, pc])]
+        for label, mk, want in forms:
+            ctx.ev()
+            ctx.count('declarations_from_proxied_interfaces')
+            try:
+                got = list(mk())
+                ok = len(got) == len(want) and all(g == w_ for g, w_ in zip(got, want)) and all((w_ in mk()) for w_ in want)
+                got = nm([getattr(g, '__name__', '?') and g for g in got]) if not ok else None
+            except BaseException as e:      # noqa (RecursionError included)
+                ok, got = False, type(e).__name__
+            if not ok:
+                ctx.violation('declaration-from-proxied-interfaces', {'form': label, 'got': str(got), 'expected': nm(want)})
+        o2 = type('Kp', (), {})()
+        ctx.ev()
+        try:
+            alsoProvides(o2, Proxy(pa))
+            ok = bool(pa.providedBy(o2)) and any(x == pa for x in directlyProvidedBy(o2))
+        except BaseException as e:          # noqa
+            ok = False
+        if not ok:
+            ctx.violation('alsoProvides-with-a-proxied-interface', {'iface': nm(pa)})
     if ctx.case < 2:
         ctx.sample({'mode': ctx.mode, 'declarations': [nm(l) for _, l, _ in decls],
                     'interfaces': {nm(i): nm(i.__bases__) for i in ifs}})
+
+
+def _w(p):
+    return object.__getattribute__(p, '_wrapped')
+
+
+class Proxy:
+    """Transparent proxy: forwards everything, says it is of the wrapped object's class."""
+
+    __slots__ = ('_wrapped',)
+
+    def __init__(self, wrapped):
+        object.__setattr__(self, '_wrapped', wrapped)
+
+    @property
+    def __class__(self):
+        return type(_w(self))
+
+    def __getattr__(self, name):
+        return getattr(_w(self), name)
+
+    def __setattr__(self, name, value):
+        setattr(_w(self), name, value)
+
+    def __hash__(self):
+        return hash(_w(self))
+
+    def __eq__(self, other):
+        if type(other) is Proxy:
+            other = _w(other)
+        return _w(self) == other
+
+    def __ne__(self, other):
+        return not self.__eq__(other)
+
+    def __iter__(self):
+        return iter(_w(self))
+
+    def __contains__(self, item):
+        return item in _w(self)
+
+    def __call__(self, *args, **kw):
+        return _w(self)(*args, **kw)
 
 
 def util_flatten(args):
